@@ -119,8 +119,18 @@ def action_config_writers(ctx: Ctx):
             if cfg is None and len(call.args) >= 3:
                 cfg = call.args[2]
             keys = {}
+            extra_stores = []
+            if isinstance(cfg, ast.Name):
+                # config = {...}; config[KEY] = value ... ; LocationAction(..., config, ...)
+                binds = [b for k, b in ctx.types.local_bindings(fi, cfg.id) if k == "assign"]
+                for n in ctx.types.nodes_in(fi, ast.Assign):
+                    for tg in n.targets:
+                        if isinstance(tg, ast.Subscript) and isinstance(tg.value, ast.Name) and tg.value.id == cfg.id:
+                            extra_stores.append((tg.slice, n.value))
+                if len(binds) == 1 and isinstance(binds[0][1], ast.Dict):
+                    cfg = binds[0][1]
             if isinstance(cfg, ast.Dict):
-                for k, v in zip(cfg.keys, cfg.values):
+                for k, v in list(zip(cfg.keys, cfg.values)) + extra_stores:
                     if k is None:
                         keys["**"] = v
                         continue
